@@ -4,7 +4,8 @@
    definition carries the length-derived bound; the *_fuel theorems state the bound explicitly.
    Variants: Repaired = /repo HEAD (both recorded findings are fixed upstream: 7065ffb, 890d5a0); Defective = the code
    before those commits, kept only for the *_refuted and *_repair_conservative theorems.
-   Sections: totality per entry point; RADIUS/CoA/IPoE/L2TP byte handling; bounded worker pools; round trips.
+   Sections: totality per entry point; RADIUS/CoA/IPoE/L2TP byte handling; hostile datagrams vs the RADIUS pending table;
+   bounded worker pools; round trips; frame sequences; lock discipline of the session receive path.
    Each theorem is closed by [exact] of a lemma of Proofs.v / RoundTrip.v. *)
 From OV Require Import Common.Base C07.Model C07.Proofs C07.RoundTrip.
 Local Open Scope N_scope.
